@@ -627,7 +627,34 @@ func c06LearnTable(c *Ctx) {
 		return
 	}
 	c.check(isParam(f, upd.Key, 1) && isParam(f, upd.Value, 2), rule, "AddRoute/update", w.ipos(upd), "route[host] = transport", "AddRoute does not store its transport argument under its host argument")
-	// the only condition under which the store is skipped
+	// the only condition under which the store is skipped: the stored transport is the same listener, decided by
+	// isSameTransport(old, transport), by identity, or by comparing protocol, address and port of both in place
+	var lk *ssa.Lookup
+	eachInstr(f, func(in ssa.Instruction) {
+		if l, ok := in.(*ssa.Lookup); ok && l.CommaOk {
+			if _, isT := isLoadOf(l.X, "SelfLearnRoute.route"); isT && isParam(f, l.Index, 1) {
+				lk = l
+			}
+		}
+	})
+	isOld := func(v ssa.Value) bool {
+		e, ok := strip(v).(*ssa.Extract)
+		return ok && lk != nil && e.Tuple == ssa.Value(lk) && e.Index == 0
+	}
+	accEq := func(name string) func(Atom) bool {
+		return func(a Atom) bool {
+			if a.Kind != "eq" {
+				return false
+			}
+			c1, _ := callOfResult(a.X)
+			c2, _ := callOfResult(a.Y)
+			if c1 == nil || c2 == nil || w.calleeName(c1) != name || w.calleeName(c2) != name {
+				return false
+			}
+			r1, r2 := callArg(c1, -1), callArg(c2, -1)
+			return (isOld(r1) && isParam(f, r2, 2)) || (isOld(r2) && isParam(f, r1, 2))
+		}
+	}
 	same := func(a Atom) bool {
 		switch a.Kind {
 		case "bool":
@@ -641,10 +668,31 @@ func c06LearnTable(c *Ctx) {
 		}
 		return false
 	}
-	keep := w.under(assumeAtom(same, false))
-	mn, mx, inf := countSites(entryPt(f), keep, isInstr(upd))
-	c.check(mn == 1 && mx == 1 && !inf, rule, "AddRoute/overwrites-unless-same", w.ipos(upd), "a different transport always replaces the stored one",
-		fmt.Sprintf("when the stored transport is not the same listener the table is updated min=%d max=%d times: a host that moved to another listener keeps its stale route, and the Via/Record-Route inserted for it name the wrong listener", mn, mx))
+	var sels []func(Atom) bool
+	if len(w.ifsTesting(f, same)) > 0 {
+		sels = append(sels, same)
+	} else {
+		for _, n := range []string{"ServerTransport.GetProtocol", "ServerTransport.GetAddress", "ServerTransport.GetPort"} {
+			sels = append(sels, accEq(n))
+		}
+	}
+	good := true
+	detail := ""
+	for _, sel := range sels {
+		if len(w.ifsTesting(f, sel)) == 0 {
+			good = false
+			detail = "the stored transport is not compared with the new one by protocol, address and port"
+			continue
+		}
+		keep := w.under(assumeAtom(sel, false))
+		mn, mx, inf := countSites(entryPt(f), keep, isInstr(upd))
+		if !(mn == 1 && mx == 1 && !inf) {
+			good = false
+			detail = fmt.Sprintf("when the stored transport differs the table is updated min=%d max=%d times", mn, mx)
+		}
+	}
+	c.check(good, rule, "AddRoute/overwrites-unless-same", w.ipos(upd), "a different transport always replaces the stored one",
+		"a stored transport that is not the same listener (protocol, address and port) is not always replaced ("+detail+"): a host that moved to another listener keeps its stale route, and the Via/Record-Route inserted for it name the wrong listener")
 	if st := c.fn(rule, "(*SelfLearnRoute).isSameTransport"); st != nil {
 		acc := func(name string) func(Atom) bool {
 			return func(a Atom) bool {
